@@ -777,7 +777,23 @@ def rule_G7(prog, fixture=False):
             loop_cons = _loop_constraints(ctx, node)
             e = ctx.lin(idx)
             if e is None:
-                continue          # index outside the affine fragment (loaded from data, products of variables ...): G2's business
+                # outside the affine fragment (products of variables, quotients by variables): no proof is attempted, but a small
+                # concrete instance can still refute
+                if idx.strip().tc not in ("int",) or any(x.k in ("CXXOperatorCallExpr", "ArraySubscriptExpr") for x in idx.walk()):
+                    continue      # loaded from data: G2's business
+                wit = _refute_concretely(prog, f, ctx, node, base, idx, size_cache)
+                n_sites += 1
+                if wit is not None and _members_constructible(prog, f, ctx, wit[0]):
+                    okp, how = _params_attainable(prog, f, ctx, wit[0], node)
+                    rel_atoms = set(wit[0])
+                    if okp and not _opaque_rejecting_call(prog, f, node, rel_atoms):
+                        res.add(okey, VIOLATED, where, what,
+                                "for %s every live check and loop bound at this point holds, and the index %s = %s is outside the "
+                                "container (size %s)%s" % (", ".join("%s = %s" % (_pretty(a), v) for a, v in sorted(wit[0].items()) if not a.startswith("(")),
+                                                          idx.text()[:40], wit[1], wit[2], how), func=f.name, extra=extra)
+                        continue
+                res.add(okey, UNMODELLED, where, what, "index outside the affine fragment: no proof attempted, no small refuting instance", func=f.name, extra=extra)
+                continue
             n_sites += 1
             satom = ctx.container_atom(base)
             if satom is None:
@@ -865,6 +881,33 @@ def rule_G7(prog, fixture=False):
     return res
 
 
+def _pure_passthrough(prog, f):
+    """names of the public functions that are the only callers of the internal f and hand it nothing but their own, distinct
+    parameters without any live check in front of the call (a public wrapper around a template helper), else ''"""
+    from .chain import Chain
+    from .rules_assume import literal, _is_internal, canon
+    sites = Chain(prog, literal, _is_internal, canon).call_sites(f)
+    if not sites:
+        return ""
+    names = []
+    for (caller, cn, args) in sites:
+        if cn is None or _is_internal(caller) or caller.get("lambda") or len(args) != len(f.params):
+            return ""
+        seen = set()
+        for a in args:
+            a0 = a.strip_all()
+            while a0.k in ("CXXConstructExpr", "MaterializeTemporaryExpr") and len(a0.c) == 1:
+                a0 = a0.c[0].strip_all()
+            if not (a0.k == "DeclRefExpr" and a0.decl and a0.decl.get("k") == "parm") or a0.decl["id"] in seen:
+                return ""
+            seen.add(a0.decl["id"])
+        caller.blocks
+        if any(not fact.belief for fact in caller.facts_at(cn)):
+            return ""
+        names.append(caller.short)
+    return ", ".join(sorted(set(names))[:2])
+
+
 def _params_attainable(prog, f, ctx, env, node):
     """the function is a public entry point (the caller chooses the arguments), or it is internal and the call-chain prover
     (chain.py) finds a public entry point from which the failing value of its - single, integer - parameter arrives"""
@@ -873,6 +916,9 @@ def _params_attainable(prog, f, ctx, env, node):
     from .rules_slice import INF
     if not _is_internal(f) and not f.get("lambda"):
         return (True, "")
+    pt = _pure_passthrough(prog, f)
+    if pt:
+        return (True, "; %s is called by the public %s with its own arguments, unchecked" % (f.short, pt))
     pnames = {p["n"] for p in f.params}
     patoms = [a for a in env if a.startswith("p:") and a[2:] in pnames]
     szatoms = [a for a in env if a.startswith("sz:") and ctx.size_keys.get(a) and ctx.size_keys[a][3] == "parm"]
@@ -1053,11 +1099,9 @@ def _eval_cond(ctx, n, env, depth=0):
     """concrete value of an integer / boolean expression under the instance `env` (atom -> value), or None"""
     x = n.strip_all()
     v = ctx.lin(x)
-    if v is not None:
+    if v is not None and all(a in env for a in v.t):
         val = v.c
         for a, k in v.t.items():
-            if a not in env:
-                return None
             val += k * env[a]
         return val
     if x.k == "DeclRefExpr" and x.decl and x.decl.get("k") == "local" and depth < 4:
@@ -1164,6 +1208,185 @@ def _witness(ctx, cons, goal, e, size, relevant, nonlinear=()):
                     break
             if good:
                 return (env, ev(e, env), ev(size, env))
+    return None
+
+
+
+# ---- refutation only: indices outside the affine fragment, evaluated on small instances ----------------------------------------
+def _loop_shape(fs):
+    """(decl id, name, init node, op, bound node) of  for (int i = a; i < B; ++i)  with an unwritten variable, bounds not inspected"""
+    init, cond, inc, body = fs.role("init"), fs.role("cond"), fs.role("inc"), fs.role("body")
+    if init is None or cond is None or inc is None:
+        return None
+    vds = [x for x in init.walk() if x.k == "VarDecl"]
+    if len(vds) != 1 or not vds[0].c or vds[0].decl.get("k") != "local":
+        return None
+    vid, vname = vds[0].decl["id"], vds[0].decl["n"]
+    i0 = inc.strip_all()
+    if not (i0.k == "UnaryOperator" and i0.op == "++" and i0.c and i0.c[0].strip_all().k == "DeclRefExpr" and i0.c[0].strip_all().decl.get("id") == vid):
+        return None
+    for x in (body.walk() if body is not None else []):
+        if x.k in ("BinaryOperator", "CompoundAssignOperator", "UnaryOperator") and x.op and (x.op.endswith("=") or x.op in ("++", "--")) \
+                and x.op not in ("==", "!=", "<=", ">=") and x.c:
+            t = x.c[0].strip_all()
+            if t.k == "DeclRefExpr" and t.decl and t.decl.get("id") == vid:
+                return None
+    cmp_ = as_comparison(cond)
+    if cmp_ is None:
+        return None
+    l, op, r = cmp_
+    l0 = l.strip_all()
+    if not (l0.k == "DeclRefExpr" and l0.decl and l0.decl.get("id") == vid) or op not in ("<", "<="):
+        return None
+    return (vid, vname, vds[0].c[0], op, r)
+
+
+def _free_atoms(ctx, nodes):
+    """atoms an instance may choose, occurring in the given expressions (through single-definition locals)"""
+    out = set()
+    bad = False
+    stack = list(nodes)
+    seen = set()
+    while stack:
+        n = stack.pop()
+        for x in n.walk():
+            if x.id in seen:
+                continue
+            seen.add(x.id)
+            if x.k == "DeclRefExpr" and x.decl:
+                d = x.decl
+                if d.get("id") in ctx.loopvars:
+                    continue
+                if d.get("k") == "parm" and x.tc in ("int", "bool", "enum"):
+                    if ("id", d["id"]) in ctx._written_ids():
+                        bad = True
+                    out.add("p:%s" % d["n"])
+                elif d.get("k") == "local" and x.tc in ("int", "bool", "enum"):
+                    init = _single_def(x)
+                    if init is None or ("id", d["id"]) in ctx._written_ids():
+                        bad = True
+                    else:
+                        stack.append(init)
+            elif x.k == "MemberExpr" and x.decl and x.decl.get("k") == "field" and x.tc in ("int", "bool", "enum") \
+                    and (not x.c or x.c[0].strip_all().k == "CXXThisExpr"):
+                if ("field", x.decl["n"]) in ctx._written_ids():
+                    bad = True
+                out.add("this.%s" % x.decl["n"])
+            elif x.k == "CXXMemberCallExpr" and x.callee and (x.callee.get("qn") or "").rsplit("::", 1)[-1] == "size":
+                a = ctx.container_atom(x.call_object())
+                if a is None:
+                    bad = True
+                else:
+                    out.add(a)
+    return (None if bad else out)
+
+
+def _refute_concretely(prog, f, ctx, node, base, idx, size_cache):
+    """a small instance (values 0..6 of at most four free quantities, loop variables inside their evaluated bounds) under which
+    every dominating live fact evaluates to its required outcome and the index leaves [0, size).  -> (env, index, size) or None"""
+    key = ctx.container_key(base)
+    if key is None:
+        return None
+    satom = ctx.container_atom(base)
+    if satom is None:
+        return None
+    loops = []
+    ctx.loopvars = {}
+    for fs in reversed(_enclosing_loops(node)):
+        sh = _loop_shape(fs)
+        if sh is None:
+            return None          # an enclosing loop that is not counted: its variable cannot be enumerated
+        loops.append(sh)
+        ctx.loopvars[sh[0]] = ("i:%s#%d" % (sh[1], sh[0]), None, None)
+    facts = [fa for fa in f.facts_at(node) if not fa.belief]
+    exprs = [idx] + [fa.cond for fa in facts] + [x for sh in loops for x in (sh[2], sh[4])]
+    size_expr = None
+    if key[3] == "local":
+        if key not in size_cache:
+            size_cache[key] = _construction_size(ctx, f, key)
+        size_expr = size_cache[key]
+        if size_expr is None:
+            return None
+    elif key[3] == "field":
+        # the size of a member is object state: only a constructor-established invariant makes it a known quantity
+        if not f.cls or f.kind in ("ctor", "copy_ctor", "move_ctor", "dtor"):
+            return None
+        size_expr = class_size_invariants(prog, f.cls).get(key[1])
+        if size_expr is None:
+            return None
+    free = _free_atoms(ctx, exprs)
+    if free is None:
+        return None
+    if size_expr is not None:
+        free |= {a for a in size_expr.atoms() if not a.startswith("(")}
+        if ctx.divs and any(a.startswith("(") for a in size_expr.atoms()):
+            for a in size_expr.atoms():
+                if a in ctx.divs:
+                    free |= {b for b in ctx.divs[a][0].atoms()}
+    free.discard(satom) if key[3] in ("local", "field") else free.add(satom)
+    free = sorted(a for a in free if not a.startswith("i:") and not a.startswith("("))
+    if len(free) > 4 or any(a.startswith("l:") for a in free):
+        return None
+
+    def lin_val(lin, env):
+        v = lin.c
+        for a, k in lin.t.items():
+            if a in ctx.divs and a not in env:
+                num = lin_val(ctx.divs[a][0], env)
+                if num is None:
+                    return None
+                q = abs(num) // ctx.divs[a][1]
+                env[a] = q if num >= 0 else -q
+            if a not in env:
+                return None
+            v += k * env[a]
+        return v
+    for vals in itertools.product(range(0, 7), repeat=len(free)):
+        env = dict(zip(free, vals))
+        if size_expr is not None:
+            sz = lin_val(size_expr, env)
+            if sz is None or sz < 0:
+                continue
+            env[satom] = sz
+        size = env.get(satom)
+        if size is None:
+            continue
+
+        def rec(k):
+            if k == len(loops):
+                for fa in facts:
+                    r = _eval_cond(ctx, fa.cond, env)
+                    if r is None:
+                        if not fa.pol and _is_finished_counted_loop(ctx, fa.cond):
+                            continue
+                        return None          # not evaluable on this instance (division by zero, call result): no verdict from it
+                    if bool(r) != bool(fa.pol):
+                        return None
+                iv = _eval_cond(ctx, idx, env)
+                if iv is None:
+                    return None
+                if iv < 0 or iv >= size:
+                    return (dict(env), iv, size)
+                return None
+            vid, vname, init, op, bound = loops[k]
+            lo, hi = _eval_cond(ctx, init, env), _eval_cond(ctx, bound, env)
+            if lo is None or hi is None:
+                return None
+            if op == "<":
+                hi -= 1
+            atom = ctx.loopvars[vid][0]
+            for v in range(int(lo), int(min(hi, lo + 9)) + 1):
+                env[atom] = v
+                r = rec(k + 1)
+                if r is not None:
+                    return r
+            env.pop(atom, None)
+            return None
+        r = rec(0)
+        if r == "abort":
+            return None
+        if r is not None:
+            return r
     return None
 
 
